@@ -229,8 +229,8 @@ func init() {
 				bound, raceBound = 3, 2
 			}
 			ps := []*harness.Phase{
-				{Name: "interleavings", Bound: bound, Gate: true, Rule: "6 scenarios x entry-point choices x all schedules with <=2 (thorough 3) preemptions (pool answer deviations share the bound); distinct by (scenario, schedule)", Body: func(c *explore.C) { c08Body(c, tier, false) }},
-				{Name: "interleavings-race", Bound: raceBound, Race: true, Gate: true, Rule: "the same scenarios with <=1 (thorough 2) preemptions in a -race build whose scheduler hand-offs create no happens-before edge; any data race aborts the worker and is pinned to the schedule", Body: func(c *explore.C) { c08Body(c, tier, true) }},
+				{Name: "interleavings", Bound: bound, Gate: true, FineCrumbs: true, Rule: "6 scenarios x entry-point choices x all schedules with <=2 (thorough 3) preemptions (pool answer deviations share the bound); distinct by (scenario, schedule)", Body: func(c *explore.C) { c08Body(c, tier, false) }},
+				{Name: "interleavings-race", Bound: raceBound, Race: true, Gate: true, FineCrumbs: true, Rule: "the same scenarios with <=1 (thorough 2) preemptions in a -race build whose scheduler hand-offs create no happens-before edge; any data race aborts the worker and is pinned to the schedule", Body: func(c *explore.C) { c08Body(c, tier, true) }},
 			}
 			return append(ps, e3Phases("C08")...)
 		},
@@ -294,6 +294,9 @@ func c08Body(c *explore.C, tier universe.Tier, race bool) {
 	}
 	for t, th := range run.Threads() {
 		if th.Panic != nil {
+			if explore.IsHarnessPanic(th.Panic) {
+				panic(th.Panic) // the explorer's own control flow (skip / harness error), raised inside a thread
+			}
 			c.Fail(fmt.Sprintf("thread %d panics: %v", t, th.Panic), cs("panic", fmt.Sprint(th.Panic)))
 			return
 		}
@@ -325,7 +328,9 @@ func c08Body(c *explore.C, tier universe.Tier, race bool) {
 			}
 		}
 	}
-	harness.Cur.Outcome(harness.Hash64([]byte(sc.name), []byte(fmt.Sprint(c.Choices()))), sc.name)
+	// the order in which the threads got the registration lock is an observable of the schedule:
+	// many schedules with a single lock order would mean the threads never contended
+	harness.Cur.Outcome(harness.Hash64([]byte(sc.name), []byte(fmt.Sprint(c.Choices()))), fmt.Sprintf("%s lock-order=%v", sc.name, run.Acquires))
 	harness.Cur.Sample(func() interface{} {
 		return map[string]interface{}{"scenario": sc.name, "threads": names, "schedule_choices": c.Choices(), "scheduling_points": run.Steps}
 	})
